@@ -17,7 +17,8 @@ reg(Prop(
          'construction/assignment with live connections, destruction before connections). After every step every live list is iterated '
          'forward (mutable and const) and backward and compared with the model; every usable signal is called and the logged callback '
          'sequence, the folded result and the per-connection unregister counters are compared. distinct = hash of the history text.'
-         ' By-value class-type arguments: signals taking std::string / shared_ptr<int> / a heap-backed number by value, callbacks that move their parameter on, lvalue and rvalue call arguments; every callback sees the call\'s argument, the result is the left fold.',
+         ' By-value class-type arguments: signals taking std::string / shared_ptr<int> / a heap-backed number by value, callbacks that move their parameter on, lvalue and rvalue call arguments; every callback sees the call\'s argument, the result is the left fold.'
+         ' Callbacks with an inner call counter (the signal invokes the callback object the connection owns, not a copy).',
     assumptions=COMMON_ASSUMPTIONS + [
         'model: a list move assignment drops the target\'s previous members from every list; elements of a destroyed list are in no list; moving from an unlinked element yields an unlinked element',
         'side condition: a moved-from signal object is only destroyed or assigned to (its combiner is moved-from)'],
